@@ -212,6 +212,64 @@ class _RecordDeviceTransfer:
 _device_recorder = _RecordDeviceTransfer()
 
 
+def _is_leaf_or_lazy_stack(cls) -> bool:
+    # a nested lazy stack is handed over as a whole: its own dispatch splits the operands along the stack dim
+    if not _is_tensor_collection(cls):
+        return True
+    if not getattr(cls, "_lazy", False):
+        return False
+    from tensordict._lazy import LazyStackedTensorDict
+
+    return issubclass(cls, LazyStackedTensorDict)
+
+
+def _has_nested_lazy_stack(td) -> bool:
+    for value in td.values(True, is_leaf=_is_leaf_or_lazy_stack):
+        if _is_leaf_or_lazy_stack(type(value)) and _is_tensor_collection(type(value)):
+            return True
+    return False
+
+
+def _apply_with_tensor_operands(self, op: str, others, args, kwargs):
+    """Pointwise op with at least one tensor operand of batch shape (``others`` are already expanded to ``self.shape``).
+
+    Tensordict operands (if any) are matched by key through apply, tensor operands are
+    broadcast against each leaf from the left, anything else is passed as is. A nested lazy stack
+    is treated as a leaf: it exposes its leaves member by member, so the tensor operand has to be
+    split along its stack dim, which the lazy-stack dispatch of the op does.
+    """
+    td_idx = [i for i, other in enumerate(others) if _is_tensor_collection(type(other))]
+
+    def call(x, *td_leaves):
+        td_leaves = iter(td_leaves)
+        operands = [
+            (
+                next(td_leaves)
+                if i in td_idx
+                else (
+                    expand_as_right(other, x)
+                    if isinstance(other, torch.Tensor)
+                    else other
+                )
+            )
+            for i, other in enumerate(others)
+        ]
+        return getattr(x, op)(*operands, *args, **kwargs)
+
+    if td_idx:
+        # as for the fused path: the key sets must match exactly
+        keys = set(self.keys(True, True))
+        for i in td_idx:
+            other_keys = set(others[i].keys(True, True))
+            if other_keys != keys:
+                raise KeyError(
+                    f"Some keys were not found: {keys.symmetric_difference(other_keys)}."
+                )
+    return self._fast_apply(
+        call, *[others[i] for i in td_idx], is_leaf=_is_leaf_or_lazy_stack
+    )
+
+
 def _lazy_stack_memberwise(self, op: str, others, args, kwargs, inplace: bool = False):
     """Runs a pointwise op member by member when a lazy stack meets an operand that is not stacked alike.
 
@@ -255,6 +313,25 @@ def _lazy_stack_memberwise(self, op: str, others, args, kwargs, inplace: bool = 
                 # could not be densified (e.g. stacks of non-tensor data)
                 return NotImplemented
             return getattr(self, op)(*others, *args, **kwargs)
+        if (
+            inplace
+            and any(isinstance(other, torch.Tensor) and other.ndim for other in others)
+            and _has_nested_lazy_stack(self)
+        ):
+            # the fused in-place ops see the leaves of a nested lazy stack member by member: a tensor
+            # operand of batch shape cannot be paired with them, go entry by entry instead
+            shape = self.shape
+            others = tuple(
+                (
+                    other.expand(shape)
+                    if (isinstance(other, torch.Tensor) and other.ndim)
+                    or _is_tensor_collection(type(other))
+                    else other
+                )
+                for other in others
+            )
+            _apply_with_tensor_operands(self, op, others, args, kwargs)
+            return self
         return NotImplemented
     stack_dim = self.stack_dim
     n = len(self.tensordicts)
@@ -360,41 +437,8 @@ def _maybe_broadcast_other(op: str, n_other: int = 1):
                     other = other.expand(shape)
                 others_map.append(other)
             if any(isinstance(other, torch.Tensor) for other in others_map):
-                # tensordict operands (if any) are matched by key through apply, tensor operands are
-                # broadcast against each leaf from the left, anything else is passed as is
-                td_idx = [
-                    i
-                    for i, other in enumerate(others_map)
-                    if _is_tensor_collection(type(other))
-                ]
-
-                def call(x, *td_leaves):
-                    td_leaves = iter(td_leaves)
-                    operands = [
-                        (
-                            next(td_leaves)
-                            if i in td_idx
-                            else (
-                                expand_as_right(other, x)
-                                if isinstance(other, torch.Tensor)
-                                else other
-                            )
-                        )
-                        for i, other in enumerate(others_map)
-                    ]
-                    return getattr(x, op)(*operands, *args, **kwargs)
-
-                if td_idx:
-                    # as for the fused path: the key sets must match exactly
-                    keys = set(self_expand.keys(True, True))
-                    for i in td_idx:
-                        other_keys = set(others_map[i].keys(True, True))
-                        if other_keys != keys:
-                            raise KeyError(
-                                f"Some keys were not found: {keys.symmetric_difference(other_keys)}."
-                            )
-                return self_expand._fast_apply(
-                    call, *[others_map[i] for i in td_idx]
+                return _apply_with_tensor_operands(
+                    self_expand, op, others_map, args, kwargs
                 )
             return getattr(self_expand, op)(*others_map, *args, **kwargs)
 
